@@ -5,7 +5,7 @@ import ast
 
 from .. import astutil as A
 from ..cfg import cfg_of, within
-from ..dataflow import local_defs, derives, reaching
+from ..dataflow import local_defs, derives, reaching, source_list
 from ..engine_model import RunFor, FrontModel, parse_expr, \
     inline_helper_calls
 from ..loader import AnalysisError
@@ -393,6 +393,59 @@ def r01_4(ck):
             gets = [c for c in gets if isinstance(
                 A.call_receiver(c), ast.Name) and
                 A.call_receiver(c).id in loop_names]
+            two_phase = False
+            if not gets and isinstance(loop.iter, ast.Name):
+                # fetch-then-apply: the list applied is an unfiltered
+                # comprehension  [(u.get(), s) for u, s in collected]
+                src, comps = source_list(f.node, loop.iter.id)
+                if len(comps) == 1:
+                    lc = comps[0]
+                    cg = [c for c in A.calls_in(lc, 'get')
+                          if not c.args and not c.keywords]
+                    tnames = {t.id for t in ast.walk(lc.generators[0].target)
+                              if isinstance(t, ast.Name)}
+                    cg = [c for c in cg if isinstance(
+                        A.call_receiver(c), ast.Name) and
+                        A.call_receiver(c).id in tnames]
+                    if len(cg) == 1 and isinstance(lc.elt, ast.Tuple) and \
+                            len(lc.elt.elts) == 2 and A.contains(
+                                lc.elt.elts[0], cg[0]) and isinstance(
+                                loop.target, ast.Tuple) and len(
+                                loop.target.elts) == 2:
+                        two_phase = True
+                        first = A.unparse(loop.target.elts[0])
+                        second = A.unparse(loop.target.elts[1])
+                        okp = A.unparse(A.arg_of(call, 0, 'update')) == \
+                            first and A.unparse(A.arg_of(
+                                call, 1, 'state')) == second and A.unparse(
+                                lc.elt.elts[1]) in tnames
+                        ck.require(okp, 'R01.4', f, call,
+                                   'each fetched update is applied with the '
+                                   'store that was paired with its Defer',
+                                   'fetched updates are not applied with '
+                                   'their own stores', call)
+                        # the comprehension is evaluated once, before the
+                        # apply loop
+                        dstmt = [d for d in local_defs(f.node).get(
+                            loop.iter.id, []) if d.kind != 'mutate'][0].stmt
+                        ck.require(cfg.dominates(cfg.node(dstmt),
+                                                 cfg.node(loop)),
+                                   'R01.4', f, dstmt,
+                                   'every Defer of the batch is fetched '
+                                   'exactly once, before the apply loop',
+                                   None, dstmt)
+            if two_phase:
+                cn = cfg.node(call)
+                ok = cfg.must_pass(entry, hdr, {cn}, within=body | {hdr}) \
+                    and not cfg.loops[id(loop)]['breaks'] and not any(
+                        isinstance(cfg.info[x]['stmt'], ast.Return)
+                        for x in body)
+                ck.require(ok, 'R01.4', f, loop,
+                           'every fetched update reaches apply_update (no '
+                           'break / continue / return skips it)',
+                           'an iteration can skip apply_update: a fetched '
+                           'update would be lost', loop)
+                continue
             ck.require(
                 len(gets) == 1 and _enclosing_loop(gets[0], f.node) is loop,
                 'R01.4', f, loop,
